@@ -562,8 +562,11 @@ def m_localname(f: Failure) -> bool:
     if f.kind != "header:rootAttrs":
         return False
     got, want = f.extra["got"], f.extra["want"]
-    if not isinstance(got, dict) or not isinstance(want, dict) or got == want:
+    if not isinstance(got, dict) or not isinstance(want, dict) or set(got) == set(want):
         return False
+    if has_ws(f.case):  # may coincide with the unescaped-whitespace finding on the surviving values
+        want = xml_norm(want, True) if xml_norm(want, True) != want and any(
+            got.get(k) == xml_norm(v, True) != v for k, v in want.items()) else want
     if any(k not in want or want[k] != v for k, v in got.items()):
         return False
     groups = {}
